@@ -82,8 +82,8 @@ func TestE2E(t *testing.T) {
 		e2eWriteAll(t, nil, "skipped: no unshare")
 		return
 	}
-	if err := exec.Command("unshare", "-n", "ip", "link", "add", "vp0", "type", "veth", "peer", "name", "vp1").Run(); err != nil {
-		e2eWriteAll(t, nil, "skipped: no network namespace / veth in this sandbox")
+	if err := exec.Command("unshare", "-n", "sh", "-c", "ip link add vp0 type veth peer name vp1 && ip link add vbr type bridge").Run(); err != nil {
+		e2eWriteAll(t, nil, "skipped: no network namespace / veth / bridge in this sandbox")
 		return
 	}
 	for _, n := range []string{"psa-dhcpd", "psa-dhcpc"} {
@@ -254,11 +254,22 @@ func e2eInner(t *testing.T) {
 		}
 	}
 	must("link", "set", "lo", "up")
-	must("link", "add", "veth0", "address", srvMAC.String(), "type", "veth", "peer", "name", "veth1", "address", cliMAC.String())
+	// three hosts on one segment: the server (veth0), the client (veth1) and the observer's injector (veth2), each a veth
+	// pair whose other end is a port of a bridge, so that one host can lose its carrier without the others noticing
+	must("link", "add", "br0", "type", "bridge")
+	must("link", "add", "veth0", "address", srvMAC.String(), "type", "veth", "peer", "name", "veth0b")
+	must("link", "add", "veth1", "address", cliMAC.String(), "type", "veth", "peer", "name", "veth1b")
+	must("link", "add", "veth2", "type", "veth", "peer", "name", "veth2b")
+	for _, p := range []string{"veth0b", "veth1b", "veth2b"} {
+		must("link", "set", p, "master", "br0")
+		must("link", "set", p, "up")
+	}
+	must("link", "set", "br0", "up")
+	must("link", "set", "veth2", "up")
 	must("addr", "add", "10.77.0.1/24", "dev", "veth0")
 	// both ends of the pair live in one network stack: without this the kernel would answer, on veth0, ARP requests for the
 	// address the client configures on veth1 (as if the server's host owned it)
-	for _, i := range []string{"all", "default", "veth0", "veth1"} {
+	for _, i := range []string{"all", "default", "veth0", "veth1", "veth2", "br0"} {
 		os.WriteFile("/proc/sys/net/ipv4/conf/"+i+"/arp_ignore", []byte("1"), 0o644)
 	}
 	must("link", "set", "veth0", "up")
@@ -269,7 +280,7 @@ func e2eInner(t *testing.T) {
 	if err != nil {
 		t.Fatalf("observer socket: %v", err)
 	}
-	injFd, _, err := e2eRawSock("veth1")
+	injFd, _, err := e2eRawSock("veth2")
 	if err != nil {
 		t.Fatalf("injector socket: %v", err)
 	}
@@ -576,55 +587,63 @@ func e2eInner(t *testing.T) {
 		bad("c19", "e2e-sockets", "psa-dhcpd holds %d sockets after the exchange, %d before it", srvQuiet, srvBase)
 	}
 
-	// ---- link flap: re-validation by rebinding ----
-	time.Sleep(4 * time.Second) // let the first lifetime run down a little: the re-validation has to renew it
-	mark := len(tap.snapshot())
-	must("link", "set", "veth1", "down")
-	time.Sleep(150 * time.Millisecond)
-	// another interface comes up during the outage: none of the client's business
-	must("link", "add", "vx0", "type", "veth", "peer", "name", "vx1")
-	must("link", "set", "vx0", "up")
-	must("link", "set", "vx1", "up")
-	time.Sleep(150 * time.Millisecond)
-	must("link", "set", "veth1", "up")
+	// ---- link events: re-validation by rebinding.  First the interface itself is taken down and up, then it loses and
+	// regains its carrier (the other end goes down and up); each time an unrelated interface comes up during the outage ----
+	flapNo := 0
 	gotAck := false
-	for end := time.Now().Add(12 * time.Second); time.Now().Before(end) && !gotAck; time.Sleep(100 * time.Millisecond) {
-		for _, f := range tap.snapshot()[mark:] {
-			if f.outgoing && len(f.b) > 14+28 && f.b[12] == 0x08 && f.b[13] == 0 {
-				if rp := parseReply(f.b[14:]); rp.ok && rp.typ == 5 {
-					gotAck = true
+	flap := func(what string, down, up func()) {
+		flapNo++
+		time.Sleep(3 * time.Second) // let the lifetime run down a little: the re-validation has to renew it
+		mark := len(tap.snapshot())
+		down()
+		time.Sleep(150 * time.Millisecond)
+		a, b := fmt.Sprintf("vx%da", flapNo), fmt.Sprintf("vx%db", flapNo)
+		must("link", "add", a, "type", "veth", "peer", "name", b)
+		must("link", "set", a, "up")
+		must("link", "set", b, "up")
+		time.Sleep(150 * time.Millisecond)
+		up()
+		gotAck = false
+		for end := time.Now().Add(12 * time.Second); time.Now().Before(end) && !gotAck; time.Sleep(100 * time.Millisecond) {
+			for _, f := range tap.snapshot()[mark:] {
+				if f.outgoing && len(f.b) > 14+28 && f.b[12] == 0x08 && f.b[13] == 0 {
+					if rp := parseReply(f.b[14:]); rp.ok && rp.typ == 5 {
+						gotAck = true
+					}
 				}
 			}
 		}
-	}
-	time.Sleep(700 * time.Millisecond)
-	second := tap.snapshot()[mark:]
-	rebound := false
-	for _, f := range second {
-		if !f.outgoing && len(f.b) > 14+28 && f.b[12] == 0x08 && f.b[13] == 0 {
-			if rp := parseReply(f.b[14:]); rp.ok && rp.typ == 3 && rp.msg.ciaddr != 0 {
-				rebound = true
+		time.Sleep(700 * time.Millisecond)
+		second := tap.snapshot()[mark:]
+		rebound := false
+		for _, f := range second {
+			if !f.outgoing && len(f.b) > 14+28 && f.b[12] == 0x08 && f.b[13] == 0 {
+				if rp := parseReply(f.b[14:]); rp.ok && rp.typ == 3 && rp.msg.ciaddr != 0 {
+					rebound = true
+				}
 			}
 		}
-	}
-	if !rebound {
-		bad("c15", "e2e-no-revalidation", "no rebinding REQUEST within 12 s of the link coming back up\n%s", tailStr(cliLog.String(), 600))
-	} else {
+		if !rebound {
+			bad("c15", "e2e-no-revalidation", "%s: no rebinding REQUEST within 12 s of the link coming back\n%s", what, tailStr(cliLog.String(), 600))
+			return
+		}
 		offer, ack = nil, nil
 		judgeFrames(second, true)
 		if !gotAck {
-			bad("c15", "e2e-no-revalidation", "rebinding REQUEST sent but not acknowledged\n%s", tailStr(srvLog.String(), 600))
+			bad("c15", "e2e-no-revalidation", "%s: rebinding REQUEST sent but not acknowledged\n%s", what, tailStr(srvLog.String(), 600))
 		}
-		checkIface("after the link-up re-validation")
-		checkLifetime("after the link-up re-validation")
+		checkIface("after the re-validation (" + what + ")")
+		checkLifetime("after the re-validation (" + what + ")")
 		seen("c19")
 		if n := stableSockets(srv.Process.Pid); n != srvBase {
-			bad("c19", "e2e-sockets", "psa-dhcpd holds %d sockets after the second exchange, %d at start", n, srvBase)
+			bad("c19", "e2e-sockets", "%s: psa-dhcpd holds %d sockets after the exchange, %d at start", what, n, srvBase)
 		}
 		if n := stableSockets(cli.Process.Pid); n != cliQuiet {
-			bad("c19", "e2e-sockets", "psa-dhcpc holds %d sockets after the re-validation, %d while bound before it", n, cliQuiet)
+			bad("c19", "e2e-sockets", "%s: psa-dhcpc holds %d sockets after the re-validation, %d while bound before it", what, n, cliQuiet)
 		}
 	}
+	flap("interface down/up", func() { must("link", "set", "veth1", "down") }, func() { must("link", "set", "veth1", "up") })
+	flap("carrier lost/back", func() { must("link", "set", "veth1b", "down") }, func() { must("link", "set", "veth1b", "up") })
 
 	// malformed frames for the client's port
 	junk(cliMAC, 68)
@@ -730,11 +749,17 @@ func e2eInner(t *testing.T) {
 		}
 	}
 	// the interface vanishes under the client: every socket it tries to open from now on fails half-way; none may be left behind
-	if alive(cli) {
+	if alive(cli) && os.Getenv("VERIF_TIER") != "thorough" {
 		seen("c19")
+		// ... in the middle of an exchange that gets no answer: the server is stopped, a link event starts a re-validation
+		syscall.Kill(srv.Process.Pid, syscall.SIGSTOP)
+		must("link", "set", "veth1", "down")
+		time.Sleep(100 * time.Millisecond)
+		must("link", "set", "veth1", "up")
+		time.Sleep(1200 * time.Millisecond)
 		exec.Command("ip", "link", "del", "veth1").Run()
 		lo, hi := 1<<30, -1
-		for i := 0; i < 30 && alive(cli); i++ {
+		for i := 0; i < 60 && alive(cli); i++ {
 			time.Sleep(100 * time.Millisecond)
 			if n := e2eSockets(cli.Process.Pid); n >= 0 {
 				if n < lo {
